@@ -342,11 +342,12 @@ def check_flow_conservation(G: nx.DiGraph, flow_attr) -> bool:
             in_flow += int(data[flow_attr]) if isinstance(data[flow_attr], numbers.Integral) else data[flow_attr]
 
         # Float values that conserve flow as decimal numbers (0.3 = 0.1 + 0.2) differ in the last binary digits: they are
-        # compared with a tolerance. Integral sums are compared exactly (a relative tolerance would accept 2000000001 = 2000000000)
+        # compared up to the rounding error of the two sums (a few units in the last place per summand). Integral sums are compared
+        # exactly; a fixed relative tolerance would accept 2000000001 = 2000000000, and 3000000002.5 = 3000000000.5 among floats
         if float(out_flow).is_integer() and float(in_flow).is_integer():
             if out_flow != in_flow:
                 return False
-        elif not math.isclose(out_flow, in_flow, rel_tol=1e-9, abs_tol=1e-9):
+        elif not abs(out_flow - in_flow) <= 4 * (G.in_degree(v) + G.out_degree(v)) * math.ulp(max(abs(float(out_flow)), abs(float(in_flow)))):
             return False
 
     return True
